@@ -179,17 +179,18 @@ def sNx : Zone :=
    aA, nsecRR [lA, lExample] [lNs, lExample] tANsec 2,
    nsA, nsecRR [lNs, lExample] origin tANsec 2]
 
-/-- `x.y.example. A`: NXDOMAIN; the only NSEC sent is `ns.example. → example.`, which covers the
-query name but not `*.example.` (that is `example. → a.example.`) -/
+/-- Repaired in /repo f7c9c53 (regression): `x.y.example. A` is NXDOMAIN and now carries both
+`example. → a.example.` (covers `*.example.`, the wildcard at the closest encloser) and
+`ns.example. → example.` (covers the query name) -/
 def qXY : Query := { name := [lX, lY, lExample], type := T_A }
-theorem witness_nsec_no_wildcard_denial :
-    allSigned sNx = true ∧ nxNoWildcardDenial sNx origin qXY = true ∧
+theorem fixed_nsec_no_wildcard_denial :
+    allSigned sNx = true ∧ nxNoWildcardDenial sNx origin qXY = false ∧
     (answerImplS sNx origin qXY true true).rcode = .nxDomain ∧
     (answerImplS sNx origin qXY true true).authority =
-      [nsecRR [lNs, lExample] origin tANsec 2, sg soa 1] ∧
+      [nsecRR origin [lA, lExample] tApexNsec 1, nsecRR [lNs, lExample] origin tANsec 2, sg soa 1] ∧
     closestEncloser sNx qXY.name = origin ∧
     covers (nsecRR origin [lA, lExample] tApexNsec 1) [star, lExample] = true ∧
-    covers (nsecRR [lNs, lExample] origin tANsec 2) [star, lExample] = false := by decide
+    covers (nsecRR [lNs, lExample] origin tANsec 2) qXY.name = true := by decide
 
 def wildCnameApex : RRset :=
   { name := [star, lExample], type := T_CNAME, rdatas := [{ tag := 0, target := some origin }], sigLabels := some 1 }
@@ -269,5 +270,19 @@ theorem nonvacuous_closestNsec :
     getRR sNx qXY.name T_NSEC = none ∧
     closestNsec sNx qXY.name = some (nsecRR [lNs, lExample] origin tANsec 2) ∧
     covers (nsecRR [lNs, lExample] origin tANsec 2) qXY.name = true := by decide
+
+end HickoryVerif.C10
+
+namespace HickoryVerif.C10
+open HickoryVerif HickoryVerif.AuthZone HickoryVerif.AuthZone.SDev HickoryVerif.Spec.Rfc1034
+
+/-- the hypotheses of `nxdomain_proof_partial` are met by `x.y.example.` in `sNx` -/
+theorem nonvacuous_nxdomain_proof :
+    Dev.zoneWF sNx origin = true ∧ getRR sNx qXY.name T_NSEC = none ∧
+    star :: closestEncloser sNx qXY.name ≠ qXY.name ∧
+    (sNx.any fun r => r.name == star :: closestEncloser sNx qXY.name) = false ∧
+    closestNsec sNx qXY.name = some (nsecRR [lNs, lExample] origin tANsec 2) ∧
+    closestNsec sNx (star :: closestEncloser sNx qXY.name) = some (nsecRR origin [lA, lExample] tApexNsec 1) := by
+  decide
 
 end HickoryVerif.C10
